@@ -445,6 +445,18 @@ def r5(R, tus, fns):
                 for lo, hi in cov:
                     if lo.is_zero() and (hi - (e - 1)).is_zero():
                         ok = True
+                if not ok:
+                    # the writes may sit in a helper the array (or a row of it) is handed to: read the function with its helpers in place
+                    fi = cfront.inlined_func(tus, f.name, f.file)
+                    if fi is not f:
+                        cov = cover.covered(fi, tus, p.name, facts=[]) or []
+                        for lo, hi in cov:
+                            if lo.is_zero() and (hi - (e - 1)).is_zero():
+                                ok = True
+                    if not ok:
+                        handed = [x for st_, x in cfront.all_exprs(fi.body) if x.k == "call" and any(
+                            y.k == "var" and y.name == p.name for a_ in x.a for y in cfront.ewalk(a_))]
+                        R.shape(not handed, "C20.R5", f.file, f.name, "the writes to %s, which is handed to %s" % (p.name, sorted(set(x.name for x in handed))))
                 R.check(ok, "C20.R5", f.file, f.line, f.name, "%s(%s) written over [0, %s)" % (p.name, a, bounds.show_poly(e)),
                         "the interface promises the caller a fully defined output array but the function does not write every cell "
                         "unconditionally (covered: %s): uninitialised memory is returned to Python" % [(bounds.show_poly(l), bounds.show_poly(h)) for l, h in cov],
